@@ -71,10 +71,10 @@ def _note(ctx, key, value):
 # strategies shared by several sub-checks
 # =============================================================================================
 def _pick(options):
-    """Uniform choice through a wide integer draw: with ~40-100 examples per shard Hypothesis returns the first
-    element of sampled_from / False / short lists far more often than the others (measured 3:1)."""
+    """Uniform choice through a hashed wide integer draw: with ~40-100 examples per shard Hypothesis returns the
+    first element of sampled_from / False / short lists / small integers far more often than the others (measured 3:1)."""
     options = list(options)
-    return st.integers(0, 9239).map(lambda k: options[k % len(options)])
+    return st.integers(0, 2**31 - 1).map(lambda k: options[((((k + 1) * 2654435761) % 2**32) >> 9) % len(options)])
 
 
 def _sized(elem, lo, hi):
